@@ -45,6 +45,10 @@ def n_contexts(model):
     return len(set(i["ctx"] for i in model["instances"]))
 
 
+def n_cbtypes(model):
+    return len(set(k for t in model["traits"] for m in t["methods"] for k in m["args"] if k.startswith("cb")))
+
+
 def is_wrapped(model):
     return any(t.get("wrapped") for t in model["traits"])
 
@@ -87,7 +91,8 @@ def run_case(case, exe, stubdir, workroot, R, keep=False):
             outputs[res["output"] or ""] += 1
         # 2. reproducibility
         if len(outputs) > 1:
-            V.append(("nondeterministic_output:%dcontexts%s" % (n_contexts(case["model"]), ":wrapped" if is_wrapped(case["model"]) else ""),
+            V.append(("nondeterministic_output:%dcontexts%s%s" % (n_contexts(case["model"]), ":wrapped" if is_wrapped(case["model"]) else "",
+                                                                 ":%dcallbacktypes" % n_cbtypes(case["model"]) if n_cbtypes(case["model"]) > 1 else ""),
                       "%d runs of the unchanged binary on the same input gave %d different outputs (%s)" % (
                           R, len(outputs), ":".join(str(c) for c in sorted(outputs.values(), reverse=True)))))
         # 3. self-contained
@@ -175,6 +180,8 @@ def run(prop, tier, replay, Ctx):
         "c17_slice": "the C17 one-factor slice (with and without filler object), both languages",
         "contexts": "context sets {arc | arc+MyCtx | arc+MyCtx+OtherCtx | MyCtx+OtherCtx | none+arc | none+MyCtx} x wrapped-return method sets "
                     "{plain, borrow, into, get_mut, get_ref, borrow+into+get_mut, all four}" + (" x container {Box, Mut} x foreign {none, all}" if tier != "quick" else ""),
+        "callbacks": "1, 2 and 3 distinct callback element types (OpaqueCallback<S3|Point2|Addr>) in one method / spread over the traits of a group"
+                     + (" / with a second group variant / next to wrapped returns with two contexts" if tier != "quick" else ""),
         "foreign": "subsets of the 5 planted foreign declarations (%s) x header shapes" % ("all 32" if tier != "quick" else "none, each alone, all"),
         "config": "no config file + all 24 combinations of default_container {-,Box,Mut,Ref} x default_context {-,Arc,NoContext} x function_prefix {-,cg}",
         "args": "8 argument layouts (-o/--output first, middle, last; stdout; -c/--config; +nightly; duplicate output) x with/without config",
